@@ -88,6 +88,9 @@ type fnv struct {
 	pendingPanics []*State
 	litOfVar      map[types.Object]*ast.FuncLit
 	activeLoops   map[int]*loopCtx
+	paramVals     map[string]Value
+	tids          map[string]types.Type
+	ifaces        map[string]types.Type
 }
 
 type rangedMap struct {
@@ -310,7 +313,51 @@ func (x *fnv) tid(t types.Type) *Term {
 	if tp, ok := t.(*types.TypeParam); ok {
 		return x.c.Const("tidparam_"+tp.Obj().Name(), SInt)
 	}
-	return x.c.DistinctConst("tid", "tid_"+typeStr(t))
+	ts := typeStr(t)
+	if _, seen := x.tids[ts]; !seen {
+		x.tids[ts] = t
+		for is, it := range x.ifaces {
+			x.implFact(ts, t, is, it)
+		}
+	}
+	return x.c.DistinctConst("tid", "tid_"+ts)
+}
+
+// implFact records impl_I(tid_T) as computed by go/types.
+func (x *fnv) implFact(ts string, t types.Type, is string, it types.Type) {
+	iface, ok := it.Underlying().(*types.Interface)
+	if !ok || hasTypeParam(t) || hasTypeParam(it) {
+		return
+	}
+	v := types.Implements(t, iface)
+	x.c.AddFact("impl|"+is+"|"+ts, x.c.Eq(x.c.App("impl_"+is, SBool, x.c.DistinctConst("tid", "tid_"+ts)), x.c.Bool(v)))
+}
+
+func hasTypeParam(t types.Type) bool {
+	found := false
+	var walk func(t types.Type, depth int)
+	walk = func(t types.Type, depth int) {
+		if found || depth > 6 {
+			return
+		}
+		switch u := t.(type) {
+		case *types.TypeParam:
+			found = true
+		case *types.Named:
+			for i := 0; i < u.TypeArgs().Len(); i++ {
+				walk(u.TypeArgs().At(i), depth+1)
+			}
+		case *types.Pointer:
+			walk(u.Elem(), depth+1)
+		case *types.Slice:
+			walk(u.Elem(), depth+1)
+		case *types.Map:
+			walk(u.Key(), depth+1)
+			walk(u.Elem(), depth+1)
+		}
+	}
+	walk(t, 0)
+	return found
 }
 
 func (x *fnv) dyn(i *Term) *Term { return x.c.App("dyn", SInt, i) }
@@ -332,10 +379,27 @@ func (x *fnv) box(s *State, v Value) *Term {
 	s.Assume(c.Gt(b, c.Int(0)))
 	s.Assume(c.Eq(x.dyn(b), x.tid(t)))
 	lv := leavesOf(t)
+	mr := c.Int(0)
 	for i, l := range ls {
 		s.Assume(c.Eq(c.App(fmt.Sprintf("unbox_%s_%d", typeStr(t), i), lv[i].Sort, b), l))
+		if lv[i].Sort == SInt && (lv[i].T == nil || isAllocRef(lv[i].T)) {
+			mr = c.Ite(c.Ge(l, mr), l, mr)
+		}
 	}
+	s.Assume(c.Eq(c.App("maxref", SInt, b), mr))
 	return b
+}
+
+// isAllocRef: values of this type are references handed out by the allocator (or nil).
+func isAllocRef(t types.Type) bool {
+	if isContextType(t) {
+		return true
+	}
+	switch t.Underlying().(type) {
+	case *types.Pointer, *types.Map, *types.Chan:
+		return true
+	}
+	return false
 }
 
 // unbox extracts the payload of interface value i as type t (meaningful only when dyn(i) == tid(t)).
@@ -346,6 +410,17 @@ func (x *fnv) unbox(s *State, i *Term, t types.Type) Value {
 		ts[k] = x.c.App(fmt.Sprintf("unbox_%s_%d", typeStr(t), k), l.Sort, i)
 	}
 	v := unflatten(t, ts)
+	if len(ts) == 1 && isAllocRef(t) {
+		fact := x.c.And(x.c.Le(ts[0], x.c.App("maxref", SInt, i)), x.c.Ge(ts[0], x.c.Int(0)))
+		if ts[0].HasBVar() {
+			if s.binderFacts != nil {
+				*s.binderFacts = append(*s.binderFacts, fact)
+			}
+		} else if !s.typed[fact] {
+			s.typed[fact] = true
+			s.Assume(fact)
+		}
+	}
 	return v
 }
 
@@ -373,7 +448,14 @@ func (x *fnv) isType(s *State, i *Term, t types.Type) *Term {
 // implements(tid, iface) is an uninterpreted predicate, with the facts for the type ids known to
 // the generator added lazily by addImplFacts.
 func (x *fnv) implements(tid *Term, iface types.Type) *Term {
-	return x.c.App("impl_"+typeStr(iface), SBool, tid)
+	is := typeStr(iface)
+	if _, seen := x.ifaces[is]; !seen {
+		x.ifaces[is] = iface
+		for ts, t := range x.tids {
+			x.implFact(ts, t, is, iface)
+		}
+	}
+	return x.c.App("impl_"+is, SBool, tid)
 }
 
 // coerce converts v to type dst (implicit conversions at assignments, calls, returns).
